@@ -253,6 +253,7 @@ func (e *Exec) schedule(t *Thread) {
 			e.finish("horizon")
 			runtime.Goexit()
 		}
+		e.fireDue()
 		var en []*Thread
 		selfEnabled := !t.done && t.enabled()
 		if selfEnabled {
@@ -571,6 +572,26 @@ func AddTimer(d time.Duration, fn func()) (cancel func()) {
 	tm := &timer{when: e.now + int64(d), seq: e.tseq, fn: fn}
 	e.timers = append(e.timers, tm)
 	return func() { tm.dead = true }
+}
+
+// fireDue fires every timer whose deadline has already been reached (e.g. Sleep(0)): no time needs to pass for
+// them, so the threads they release compete with the other enabled threads instead of waiting for quiescence.
+func (e *Exec) fireDue() {
+	for {
+		fired := false
+		for _, tm := range e.timers {
+			if !tm.dead && tm.when <= e.now {
+				tm.dead = true
+				e.epoch++
+				tm.fn()
+				fired = true
+				break
+			}
+		}
+		if !fired {
+			return
+		}
+	}
 }
 
 func (e *Exec) fireTimer() bool {
